@@ -4,6 +4,7 @@
 package simctl
 
 import (
+	"sync/atomic"
 	"fmt"
 	"io"
 	"os"
@@ -90,6 +91,10 @@ type Options struct {
 	OnMainReturn func(step int) // called by the controller when it first sees the main task finished
 	StopAtMain   bool           // stop scheduling once the main task has finished (a real process exits there)
 	Invariant    func(step int) string
+	// SoftWall > 0: after that much real time the controller stops scheduling
+	// and reports the run as abandoned (inconclusive, never a hang): a case that
+	// has become pathologically slow under the simulator must not stall a batch
+	SoftWall time.Duration
 }
 
 // Event is one scheduler decision.
@@ -128,6 +133,7 @@ type Result struct {
 	FakeSleeps    int       `json:"fake_sleeps,omitempty"`
 	FakeSlept     time.Duration `json:"fake_slept_ns,omitempty"` // simulated time the controller let pass while every task slept or was blocked
 	Jitters       int       `json:"jitters,omitempty"`   // steps at which simulated time was let pass
+	Abandoned     bool      `json:"abandoned,omitempty"` // SoftWall exceeded: inconclusive
 	Exited        bool      `json:"exited,omitempty"`    // a task called os.Exit / log.Fatal
 	ExitCode      int       `json:"exit_code,omitempty"` // its status
 	BubbleEnd     string    `json:"bubble_end,omitempty"`
@@ -246,6 +252,12 @@ func Run(t *testing.T, opt Options, body func()) (res Result) {
 		os.Exit(2)
 	})
 	defer wd.Stop()
+	var abandon int32
+	if opt.SoftWall > 0 {
+		// (created outside the bubble: a real timer)
+		st := time.AfterFunc(opt.SoftWall, func() { atomic.StoreInt32(&abandon, 1) })
+		defer st.Stop()
+	}
 	defer simrt.AfterRun()
 	defer func() {
 		if r := recover(); r != nil {
@@ -331,6 +343,10 @@ func Run(t *testing.T, opt Options, body func()) (res Result) {
 				res.StepLimit = true
 				break
 			}
+			if atomic.LoadInt32(&abandon) == 1 {
+				res.Abandoned = true
+				break
+			}
 			if len(parked) > res.MaxParked {
 				res.MaxParked = len(parked)
 			}
@@ -401,7 +417,7 @@ func Run(t *testing.T, opt Options, body func()) (res Result) {
 				res.Leaked = append(res.Leaked, TaskEnd{ID: tk.ID, Site: tk.Site, State: stateName[tk.State()], Label: tk.Label()})
 			}
 		}
-		if !res.MainReturned {
+		if !res.MainReturned && !res.Abandoned {
 			res.Hang = true
 		}
 	})
